@@ -12,7 +12,7 @@ CONC_MON = {"C03": {"C03", "C01", "PANIC"}, "C08": {"C08", "HANG", "PANIC"}, "C1
 CONC_INV = {"C03": ["Inv_C03", "Inv_C08drain", "Inv_NoBad"], "C08": ["Inv_C08cover", "Inv_C08drain"], "C12": ["Inv_C12"],
             "C13": ["Inv_C13"], "C14": ["Inv_C14"], "C15": ["Inv_C15"]}
 SEQ_MON = {"C01": {"C01", "PANIC"}, "C02": {"C02"}, "C04": {"C04"}, "C06": {"C06", "HANG"}, "C07": {"C07"}, "C15": {"C15"}}
-SEQ_INV = {"C01": ["Inv_C01"], "C02": ["Inv_C02"], "C04": ["Inv_C04"], "C06": ["Inv_C06"], "C07": ["Inv_C07"],
+SEQ_INV = {"C01": ["Inv_C01"], "C02": ["Inv_C02"], "C04": ["Inv_C04", "Inv_Legit"], "C06": ["Inv_C06"], "C07": ["Inv_C07"],
            "C15": ["Inv_C15"]}
 KF_OF = {"C04": {"KF-C04-1", "KF-C04-2"}, "C13": {"KF-C13-1"}}
 KF_WHAT = {"KF-C04-1": "a partially filled maker was re-queued at the tail and lost its place",
